@@ -46,6 +46,7 @@ func C12() int {
 		}
 	}
 	fpairs := [][2]Flags{{{W: true}, {}}, {{W: true, N: true, B: true, I: true, R: sp("[x]")}, {N: true, B: true, I: true, R: sp("[x]")}}, {{W: true, Enc: true}, {Enc: true}}, {{W: true, F: "shop"}, {F: "shop"}},
+		{{W: true, R: sp("anon")}, {R: sp("anon")}}, {{W: true, R: sp(""), N: true}, {R: sp(""), N: true}},
 		// selective mode leaves most values alone; namespaces are pseudonymised all the same
 		{{W: true, Z: "^(status|qty|name)$"}, {Z: "^(status|qty|name)$"}}, {{W: true, Z: "(?i)city|mail|nomatchatall", N: true}, {Z: "(?i)city|mail|nomatchatall", N: true}}}
 	cells := map[string]int{}
